@@ -24,6 +24,10 @@ Act(act, obj, i, s, ref) == [act |-> act, obj |-> obj, i |-> i, s |-> s, ref |->
 Actions ==
   {Act("append", l, 0, "", r) : l \in OfKind("list"), r \in {StrRef("new"), NewTagRef("b")}}
   \cup UNION {{Act("share", l, 0, "", IdRef(t)) : t \in {u \in OfKind("tag") : l \notin Reach(heap, u)}} : l \in OfKind("list")}
+  \cup {Act("insert", o, 1 + Len(heap[ListOf(heap, o)].items), "", StrRef("ins")) : o \in OfKind("list") \cup OfKind("tag")}
+  \cup {Act("setitem", l, 1, "", NewTagRef("i")) : l \in {m \in OfKind("list") : heap[m].items # <<>>}}
+  \cup {Act("extend2", t, 0, "two", StrRef("one")) : t \in OfKind("tag")}
+  \cup {Act("update", a, IF heap[a].items = <<>> THEN 0 ELSE 1, IF heap[a].items = <<>> THEN "id=y" ELSE "id=x y", StrRef("")) : a \in OfKind("attrs")}
   \cup {Act("pop", l, 1, "", StrRef("")) : l \in {m \in OfKind("list") : heap[m].items # <<>>}}
   \cup {Act("rename", t, 0, "pre", StrRef("")) : t \in OfKind("tag")}
   \cup {Act("toggle", t, 0, "", StrRef("")) : t \in OfKind("tag")}
